@@ -9,11 +9,15 @@ import (
 	"context"
 	"encoding/binary"
 	"fmt"
+	"net/http"
+	"net/http/httptest"
 	"os"
 	"os/exec"
+	"runtime"
 	"sort"
 	"strings"
 	"sync"
+	"sync/atomic"
 	"time"
 
 	"github.com/alephium/wormhole-fork/explorer-backend/deduplicator"
@@ -89,8 +93,8 @@ func verifies(v *vaa.VAA, maxKnown int) bool {
 type event struct {
 	Kind  string `json:"kind"` // push | append | drain
 	Var   string `json:"variant,omitempty"`
-	Named int    `json:"named_set,omitempty"`  // push: relative: 0 = current, -1 = previous, +1 = future, -9 = set 0
-	Batch []int  `json:"batch,omitempty"`      // append: offsets relative to current index
+	Named int    `json:"named_set,omitempty"` // push: relative: 0 = current, -1 = previous, +1 = future, -9 = set 0
+	Batch []int  `json:"batch,omitempty"`     // append: offsets relative to current index
 	Seq   uint64 `json:"seq,omitempty"`
 }
 
@@ -120,15 +124,15 @@ var alphabet = func() []event {
 }()
 
 type sys struct {
-	gs     *guardiansets.GuardianSets
-	cons   interface {
+	gs   *guardiansets.GuardianSets
+	cons interface {
 		Push(context.Context, *vaa.VAA, []byte) error
 	}
-	queue  chan *processor.Message
-	cap    int
-	seenOK map[string]bool // message ids handed off successfully (harness record)
-	failed map[string]bool // verified VAAs whose hand-off failed at least once
-	dead   bool
+	queue   chan *processor.Message
+	cap     int
+	seenOK  map[string]bool // message ids handed off successfully (harness record)
+	failed  map[string]bool // verified VAAs whose hand-off failed at least once
+	dead    bool
 	maxTrue int // highest set index that legitimately exists (fixtures exist for every index)
 }
 
@@ -518,21 +522,60 @@ func racePass() {
 		gs := guardiansets.NewGuardianSets([]*common.GuardianSet{mkSet(0), mkSet(1)}, c.srv.URL, zap.NewNop(), time.Millisecond, ethcommon.Address{1}, gsC)
 		ctx, cancel := context.WithCancel(context.Background())
 		gs.UpdateGuardianSet(ctx)
-		var wg sync.WaitGroup
-		for _, idx := range []int{2, 3, 4, 5, 1} {
-			idx := idx
-			wg.Add(1)
-			go func() {
-				defer wg.Done()
-				defer func() { recover() }()
-				gs.GetGuardianSet(context.Background(), idx)
-				gs.GetCurrentGuardianSet()
-			}()
+		ticks := func() int {
+			c.mu.Lock()
+			defer c.mu.Unlock()
+			n := 0
+			for _, k := range c.calls {
+				if k == "current" {
+					n++
+				}
+			}
+			return n
 		}
-		wg.Wait()
-		time.Sleep(5 * time.Millisecond) // let a few refresh rounds overlap (race detection only; nothing is judged on time)
+		for _, idx := range []int{2, 3, 4, 5} {
+			// an append by a lookup, then the next refresh round (seen as its request at the simulated chain): the
+			// refresh goroutine's accesses come right after the append's
+			gs.GetGuardianSet(context.Background(), idx)
+			gs.GetCurrentGuardianSet()
+			for t0 := ticks(); ticks() < t0+2; {
+				time.Sleep(200 * time.Microsecond)
+			}
+		}
 		cancel()
+		if os.Getenv("VERIF_VERBOSE") != "" {
+			c.mu.Lock()
+			fmt.Fprintf(os.Stderr, "race pass round %d: chain calls %d\n", round, len(c.calls))
+			c.mu.Unlock()
+		}
 		c.srv.Close()
+	}
+	// the refresh goroutine against an endpoint that is down (every tick ends at the failed request, so the goroutine
+	// never reaches the lock on its own) while another goroutine appends. This goroutine waits for ticks through an
+	// atomic load only: it publishes nothing between its append and the next tick, so the two are unordered unless
+	// both go through the lock.
+	for round := 0; round < 30; round++ {
+		var reqs int64
+		srv := httptest.NewServer(http.HandlerFunc(func(w http.ResponseWriter, rq *http.Request) {
+			atomic.AddInt64(&reqs, 1)
+			w.WriteHeader(http.StatusServiceUnavailable)
+		}))
+		gsC := make(chan *common.GuardianSet, 64)
+		gs := guardiansets.NewGuardianSets([]*common.GuardianSet{mkSet(0), mkSet(1)}, srv.URL, zap.NewNop(), time.Millisecond, ethcommon.Address{1}, gsC)
+		ctx, cancel := context.WithCancel(context.Background())
+		gs.UpdateGuardianSet(ctx)
+		waitFor := func(n int64) {
+			for atomic.LoadInt64(&reqs) < n {
+				runtime.Gosched()
+			}
+		}
+		waitFor(1)
+		for i := 2; i <= 4; i++ {
+			gs.VerifAppend([]*common.GuardianSet{mkSet(i)})
+			waitFor(atomic.LoadInt64(&reqs) + 2)
+		}
+		cancel()
+		srv.Close()
 	}
 	os.Exit(0)
 }
